@@ -1153,7 +1153,15 @@ class Gen:
                 r.random() < self.p['p_route_container_result']:
             # nested containers as a route result: List(List(String)), Map(String, List(T?)), ...
             t = None
-            if r.random() < 0.5:
+            foreign = [d for d in self.user_types(ns, ('struct', 'union')) if d.ns != ns.name]
+            if foreign and r.random() < 0.3:
+                # a type of another namespace named only inside a map value
+                d0 = r.choice(foreign)
+                t = T('map', args={'key': prim('String'), 'value': ref(d0.ns, d0.name)})
+                if r.random() < 0.3:
+                    t = T('list', args={'item': t, 'min_items': None, 'max_items': None})
+                self.m.feature('route_result_map_of_foreign_type')
+            elif r.random() < 0.5:
                 # lists nested two or three deep around a primitive or user type
                 cands = self.user_types(ns, ('struct', 'union'))
                 inner = ref(*[(d.ns, d.name) for d in [r.choice(cands)]][0]) if cands and r.random() < 0.3 \
